@@ -488,11 +488,7 @@ theorem c06_parse_single (wr : Bool) (st : PState) (r : Reg) (pin : ParseIn) (ou
           exact key _ fs (files fs) _ h
         | none =>
           simp only [hc] at h
-          cases htup : pin.ctorTuple with
-          | true => simp [htup] at h
-          | false =>
-            simp only [htup] at h
-            exact key _ pin.ctorFiles (files pin.ctorFiles) _ h
+          exact key _ pin.ctorFiles (files pin.ctorFiles) _ h
     | some b =>
       cases b with
       | false =>
@@ -506,10 +502,7 @@ theorem c06_parse_single (wr : Bool) (st : PState) (r : Reg) (pin : ParseIn) (ou
           exact key _ fs (files fs) _ h
         | none =>
           simp only [hc] at h
-          by_cases htup : (pin.ctorTuple && !pin.ctorFiles.isEmpty) = true
-          · simp [htup] at h
-          · simp only [htup] at h
-            exact key _ pin.ctorFiles (files pin.ctorFiles) _ h
+          exact key _ pin.ctorFiles (files pin.ctorFiles) _ h
 
 /-- **per-leaf priority through the parser** (one registration): the leaf at `dest.p` ends up with the command-line
     value if given, else the value of the *last* file in `fileSeq` whose section contains the path (when not None),
@@ -539,7 +532,7 @@ def regA : RegIn := { dest := ['c'], cls := clsA, instKw := none }
 
 /-- constructor files, then `--config_path` files, then the command line, leaf by leaf (`parse()` layout) -/
 example : run { withoutRoot := true, kwBefore := [], regs := [regA], kwAfter := [],
-                parse := { ctorFiles := [[(['a'], .int 5), (['s'], .dict [(['b'], .int 6)])]], ctorTuple := false,
+                parse := { ctorFiles := [[(['a'], .int 5), (['s'], .dict [(['b'], .int 6)])]],
                            addArg := none, cliFiles := some [[(['a'], .int 7)]],
                            cmd := [(['c'], .dict [(['s'], .dict [(['b'], .int 9)])])] } }
     = .ok [(['c'], .dict [(['a'], .int 7), (['s'], .dict [(['b'], .int 9)])])] := rfl
@@ -551,7 +544,7 @@ example : ∃ b, baseAt clsA none [['s'], ['b']] = some b ∧
                                                              unionD [(['a'], .int 7)] []] .null) b) :=
   c06_parse_priority true { regs := [{ dest := ['c'], wt := clsA, inst := none }], cons := [], stray := [] }
     { dest := ['c'], wt := clsA, inst := none }
-    { ctorFiles := [[(['a'], .int 5), (['s'], .dict [(['b'], .int 6)])]], ctorTuple := false,
+    { ctorFiles := [[(['a'], .int 5), (['s'], .dict [(['b'], .int 6)])]],
       addArg := none, cliFiles := some [[(['a'], .int 7)]],
       cmd := [(['c'], .dict [(['s'], .dict [(['b'], .int 9)])])] } _ rfl rfl ['s'] [['b']] .null rfl
 
@@ -559,20 +552,13 @@ example : ∃ b, baseAt clsA none [['s'], ['b']] = some b ∧
 theorem c06_null_erases_witness :
     run { withoutRoot := true, kwBefore := [], regs := [regA], kwAfter := [],
           parse := { ctorFiles := [[(['a'], .int 5), (['s'], .dict [(['b'], .int 6)])], [(['a'], .null)]],
-                     ctorTuple := false, addArg := none, cliFiles := none, cmd := [] } }
+                     addArg := none, cliFiles := none, cmd := [] } }
     = .ok [(['c'], .dict [(['a'], .int 1), (['s'], .dict [(['b'], .int 6)])])] := rfl
-
-/-- **witness (open finding C06-ctor-tuple)**: the same files given as a tuple, no `--config_path` on the
-    command line: `TypeError` -/
-theorem c06_ctor_tuple_witness :
-    run { withoutRoot := true, kwBefore := [], regs := [regA], kwAfter := [],
-          parse := { ctorFiles := [[(['a'], .int 5)]], ctorTuple := true, addArg := none, cliFiles := none, cmd := [] } }
-    = .error (.raise .typeError) := rfl
 
 /-- an unknown key in a file is a `RuntimeError` of the whole parse -/
 theorem c06_unknown_key_e2e_witness :
     run { withoutRoot := true, kwBefore := [], regs := [regA], kwAfter := [],
-          parse := { ctorFiles := [[(['s'], .dict [(['z'], .int 5)])]], ctorTuple := false, addArg := none,
+          parse := { ctorFiles := [[(['s'], .dict [(['z'], .int 5)])]], addArg := none,
                      cliFiles := none, cmd := [] } }
     = .error (.raise .runtimeError) := rfl
 
